@@ -2,8 +2,9 @@ import os, subprocess
 
 
 def pregen(ctx):
-    """Regenerates lean/MahfModel/Generated/Templates.lean (kinds only) and Generated/TemplatesSized.lean (kinds +
-    size parameters) from the trees the real constructors build."""
+    """Regenerates lean/MahfModel/Generated/Templates.lean (kinds only), Generated/TemplatesSized.lean (kinds +
+    size parameters) and Generated/TemplatesLoops.lean (loops, scopes, loop conditions) from the trees the real
+    constructors build."""
     lean, target = ctx["lean"], ctx["target"]
     ok, out = ctx["build_bin"]("c16")          # other properties (C06, C07) share this regenerated layer
     if not ok:
@@ -31,48 +32,91 @@ def pregen(ctx):
         old = open(path).read() if os.path.exists(path) else ""
         if old != gen.stdout:
             open(path, "w").write(gen.stdout)
+        gen = subprocess.run([os.path.join(lean, ".lake", "build", "bin", "drv_c16"), "--gen-loops"], input=trees.stdout,
+                             capture_output=True, text=True, timeout=600)
+        if gen.returncode != 0 or gen.stdout.count("\ndef ") != 84:
+            raise RuntimeError("loop tree translation failed: " + (gen.stderr or gen.stdout)[-400:])
+        path = os.path.join(lean, "MahfModel", "Generated", "TemplatesLoops.lean")
+        old = open(path).read() if os.path.exists(path) else ""
+        if old != gen.stdout:
+            open(path, "w").write(gen.stdout)
 
 
 CONFIG = dict(
     bin="c16",
     drv="drv_c16",
-    lean_modules=["MahfModel.Props.C16", "MahfModel.Props.C16Size"],
+    lean_modules=["MahfModel.Props.C16", "MahfModel.Props.C16Size", "MahfModel.Props.C16Iter", "MahfModel.Props.C16Param",
+                  "MahfModel.Props.C16Guard"],
     namespaces=["MahfModel.Props.C16"],
     pregen=pregen,
     shrink=False,
     level="proof",
-    rule=("runs of all 21 shipped templates built by the real constructors x 3 valid parameter points x problem "
+    rule=("(1) grid runs: all 21 shipped templates built by the real constructors x 4 valid parameter points x problem "
           "instances (Sphere d=1,2,3,5 incl. an infeasible optimum; OneMax 3..12; TSP 5..8 cities incl. distances spread "
-          "over 1e-3..1e6) x iteration bounds {0,1,7} (quick) / {0,1,2,7,25} (thorough) x seeds; each run is observed "
-          "through the step observer (height and size before/after every Block child and every loop pass). A run is "
-          "non-trivial if it makes at least one loop pass; distinct = distinct (template, variant, instance, iterations, seed). "
-          "Size probes (K only): every size-relevant component (all selections incl. DE/IWO, replacements, crossovers with "
-          "insert_both true/false x pc {0,.5,1}, DE mutation/crossovers, SA acceptance, duplicate/clear/interleave) built by its real "
-          "constructor over a parameter grid and executed once on 58 prepared stacks (sizes 0..15 incl. odd, empty and unequal "
-          "operands, empty stack): the sizes afterwards must lie in the interval the model's transformer predicts."),
-    nontrivial=lambda inp: inp.startswith("(sizeprobe") or (" 0 " not in inp.split("(seq", 1)[0][-14:] and not inp.split("(seq", 1)[0].rstrip().rsplit(" ", 2)[-2] == "0"),
+          "over 1e-3..1e6) x iteration bounds {0,1,7} (quick) / {0,1,2,7,25,60} (thorough) x seeds, observed through the step "
+          "observer (height, sizes of the top three populations and the visible Iterations value before/after every Block child; "
+          "every loop pass with its nesting depth; completed passes per depth counted without cap). "
+          "(2) explicit-parameter runs `(prun NAME (ps ...) INSTANCE SEED (term KIND K N))`: the parameter point is part of the input; "
+          "22 fixed corner points (the recorded findings' witnesses; one individual, tournament = population, zero offspring, "
+          "population = 2y for DE, num_swap = 2 on two cities and = dimension, inner ILS bound 0 and > outer, equal seeds / "
+          "deviations, zero ants, two cities) + per template 60 (quick) / 160 (thorough) points drawn inside the documented "
+          "domain with a bias to its borders, on 7 instances per kind (adds dimension 1, OneMax 1 and 2 bits, TSP with 2 and 3 "
+          "cities and with two cities at the same place), terminated by LessThanN::iterations(k), LessThanN::evaluations(n) "
+          "(only where every pass evaluates), iterations(k) & evaluations(n), iterations(k) | evaluations(n) (k >= 1); runs in "
+          "a worker under a 60 s watchdog. (3) constructor stream `(ctor NAME (ps ...))`: per template 50 / 200 points inside, "
+          "on and beyond the borders of the documented domain (negative, 0, 1, 2, >2, huge, inf, NaN reals; 0..1000 naturals), "
+          "constructor outcome only. (4) size probes: every size-relevant component built by its real constructor over a "
+          "parameter grid and executed once on 58 prepared stacks (sizes 0..15 incl. odd, empty and unequal operands, empty stack). "
+          "Non-trivial: a grid/explicit run that can make at least one pass, every probe, every constructor case; distinct = "
+          "distinct input."),
+    nontrivial=lambda inp: (inp.startswith("(sizeprobe") or inp.startswith("(ctor")
+                            or (inp.startswith("(prun") and "(term iters 0 " not in inp and "(term both 0 " not in inp)
+                            or (inp.startswith("(run") and " 0 " not in inp.split("(seq", 1)[0][-14:]
+                                and not inp.split("(seq", 1)[0].rstrip().rsplit(" ", 2)[-2] == "0")),
     trusted_base=[
         "leafEffect (declared height change per component) is read from each component's execute; it is validated on every executed step of every run (K) but not proved from the Rust source",
         "opOf (declared effect of each component on population sizes, Model/TemplatesSize.lean) is read from each component's execute; for every executed step the observed size after is checked to lie in the interval sizeStep predicts from the observed sizes of the top three populations before (K), but it is not proved from the Rust source",
-        "the name-preserving serde serializer + tree translator (harness/src/sertree.rs, Model/Templates.lean ofSexp)",
+        "guardOf (size precondition per component) is read from each component's execute/select/replace; on every size probe where it holds the real component must succeed, i.e. a refusal implies a violated guardOf (K); not proved from the Rust source",
+        "the loop-counter model (Loop::init/execute, Scope re-initialisation, LessThanN, And/Or) is read from control_flow.rs / conditions; validated by pass counts per nesting depth, by the final Iterations value and by the check that no executed leaf changes the visible Iterations (K)",
+        "tplT (Model/TemplatesParam.lean: each template constructor as a function of its parameters) is hand-written; on every explicit-parameter run its size skeleton, its loop conditions and the verdicts of the analyses are compared with the tree the real constructor built (K)",
+        "the name-preserving serde serializer + tree translators (harness/src/sertree.rs, ofSexp / SComp.ofSexp / LComp.ofSexp)",
         "step observer hook H1 (cfg mahf_verif) reports heights faithfully"],
-    assumptions=["conditions, seeds, iteration counts and failure points are an arbitrary oracle in the theorem",
-                 "the population-size bound is decided statically by a verified interval analysis for 19 of 21 templates (the analysis cannot bound the two ILS templates, which leak a population per pass) and additionally checked on the explored runs for all",
-                 "absence of Err/panic is checked on the explored runs only (partial)"],
-    level_text=("Lean 4: a stack-effect analysis over the component-tree language (Block/Loop/Branch/Scope/leaf) proved sound for "
-                "every execution of an abstract interpreter (all condition outcomes, iteration counts, failure points); on every run "
-                "the trees of all 21 templates x 4 parameter points are re-extracted from the code's own Serialize output and the "
-                "kernel re-checks `balanced tree = true` by `decide` (84 regenerated obligations; the two ILS templates are proved "
-                "unbalanced, a recorded defect). Population sizes: an interval analysis over the trees WITH their size parameters "
-                "(stack of size intervals, checked inductive invariant per loop, hull at branches) proved sound for every execution of a "
-                "concrete size interpreter; the kernel re-checks `sizeWithin tree lo hi` for the prescribed bound on the 84 regenerated trees "
-                "(true for 19 templates; chemical reaction optimisation: >= 1, unbounded above; false = not established for the two ILS templates). "
-                "Correspondence: every executed component's observed height change equals its declared "
-                "effect and its observed size lies in the interval its size transformer predicts; run-level oracle: result Ok, exact iteration "
-                "count, per-pass balance, final height 1, size within prescription."),
-    level_note=("partial: 'no Err/panic for every seed and instance' is explored on the generated runs, not proved (numeric failure modes, "
-                "duplicate individuals in CRO); the population-size bound is proved over the model for the parameter points instantiated in "
-                "this run (not for all parameters), and only explored for the two ILS templates. Trusted: Lean kernel, declared leaf effects "
-                "and size transformers (K-validated), serializer/translator, hook H1."),
-    technique="Lean 4 proof of a sound static analysis + kernel evaluation on trees regenerated from the source on every run + differential run audit",
+    assumptions=["conditions other than the iteration bound, seeds, branch outcomes, iteration counts and failure points are an arbitrary oracle in the theorems",
+                 "valid parameters = the documented domains (docValidT) plus the size-related requirements guardValidT (1 <= tournament size <= population, mu >= 1, population >= max(1, 2y)); real-valued rates in [0,1], deviations > 0, kinetic_energy_lr in [0,1) (gen_range(lr..1.0) panics at lr = 1; the range is undocumented)",
+                 "the population-size bound is proved for all parameter values for 19 templates and decided per instantiated point (kernel) / per explored point (driver) for invasive weed and chemical reaction optimisation",
+                 "absence of Err/panic is proved only for the modelled size preconditions (not for chemical reaction optimisation); everything else (numeric failure modes, instance-dependent requirements such as num_swap <= dimension) is explored on the runs"],
+    level_text=("Lean 4. (a) Stack balance: a stack-effect analysis over the component-tree language proved sound for every execution "
+                "of an abstract interpreter (all condition outcomes, iteration counts, failure points); `balanced` holds for every "
+                "template at EVERY parameter value (tplT) and is re-checked by the kernel on the 84 trees regenerated from the code's "
+                "own Serialize output in this run. (b) Iterations: a model of Loop / Scope / the Iterations counter / LessThanN / "
+                "And / Or; the static check `itersExact` (at most one loop per scope level) is proved to imply, for EVERY execution, "
+                "that each loop made exactly n passes for iterations(n), at most n for iterations(n) & c, at least n for "
+                "iterations(n) | c, and `loop_exactly_n` gives counter = n after exactly n logged passes; counterexample theorems "
+                "for unscoped nests and sequential loops; holds for all templates at all parameter values and on the 84 "
+                "regenerated trees (kernel). (c) Population sizes: interval analysis with checked loop invariants proved sound; "
+                "the prescribed bound holds for ALL parameter values for 19 templates (closed forms), kernel-evaluated on the 84 "
+                "regenerated trees (incl. invasive weed and chemical reaction: [1, inf)). (d) No error at a size precondition: "
+                "`guards_satisfied` - if the guard analysis answers, no execution ever reaches a component whose size "
+                "precondition (tournament <= population, enough individuals, exactly one individual, equal operands, DE format, "
+                "two populations ...) is violated; holds for all parameter values meeting guardValidT for 19 templates, "
+                "kernel-evaluated on 80 regenerated trees (20 templates). (e) documented parameter points are accepted by the "
+                "constructors (`documented_parameters_accepted`). Correspondence: on every run every executed component's observed "
+                "height change equals its declared effect and its size lies in the predicted interval; pass counts per nesting "
+                "depth equal the interpreter's prediction; the tree built from an explicit parameter point has the size skeleton and "
+                "loop conditions of tplT at that point and the analyses answer on it what the all-parameter theorems say; the "
+                "constructor's outcome equals the modelled checks; every probe's ok/err equals the modelled precondition. Run-level "
+                "oracle: result Ok, exact pass counts (outer and scoped inner loop) resp. termination exactly where an evaluation "
+                "budget / composite condition says, per-pass balance, final height 1, size within the bound computed on the "
+                "Lean side from the parameters."),
+    level_note=("partial: 'no Err/panic for every seed and instance' is proved only for the modelled size preconditions and not for "
+                "chemical reaction optimisation; numeric failure modes are explored. Recorded defects (KNOWN-FINDING, with Lean "
+                "counterexamples): real_pso / real_iwo return Err in the first pass under any termination condition without an "
+                "iteration bound (their schedules read Progress<ValueOf<Iterations>>, which only LessThanN::iterations inserts); "
+                "ant_system / max_min_ant_system panic on a TSP instance with two cities at the same place (infinite sampling weight). "
+                "Observed, outside the statement: real_fa swallows an invalid delta (Box::from of an Err is an empty Block: the "
+                "template is built WITHOUT its alpha update, no error - the shared grid point v2 has delta = 1.0); "
+                "LessThanN::iterations(0) inside an OR makes Progress = x/0 (real_iwo then fails with 'invalid mutation strength'); "
+                "kinetic_energy_lr = 1.0 panics in real_cro. Trusted: Lean kernel, declared leaf effects / size transformers / "
+                "preconditions / loop-counter model / tplT (all K-validated), serializer/translators, hook H1."),
+    technique="Lean 4 proofs of sound static analyses (stack effect, loop counters, size intervals, size preconditions) + closed forms for all parameter values + kernel evaluation on trees regenerated from the source on every run + differential run audit with parameters in the input",
 )
